@@ -661,13 +661,76 @@ static int rz_damage(const uint8_t *p, const void *base, size_t n) {
     return bad;
 }
 
+#define REUSE_SLOTS 24
+static struct {
+    uint8_t *base;
+    size_t total;
+} s_reuse[REUSE_SLOTS];
+static bool s_reuse_on;
+static unsigned s_reuse_next;
+static uint64_t s_reuse_hits;
+static pthread_mutex_t s_reuse_lock = PTHREAD_MUTEX_INITIALIZER;
+
+void mon_guard_set_reuse(bool on) {
+    pthread_mutex_lock(&s_reuse_lock);
+    s_reuse_on = on;
+    if (!on) {
+        for (int i = 0; i < REUSE_SLOTS; ++i) {
+            if (s_reuse[i].base) {
+                free(s_reuse[i].base);
+                s_reuse[i].base = NULL;
+            }
+        }
+    }
+    pthread_mutex_unlock(&s_reuse_lock);
+}
+
+static uint8_t *reuse_take(size_t total) {
+    uint8_t *base = NULL;
+    pthread_mutex_lock(&s_reuse_lock);
+    if (s_reuse_on) {
+        for (int i = 0; i < REUSE_SLOTS; ++i) {
+            if (s_reuse[i].base && s_reuse[i].total == total) {
+                base = s_reuse[i].base;
+                s_reuse[i].base = NULL;
+                ++s_reuse_hits;
+                break;
+            }
+        }
+    }
+    pthread_mutex_unlock(&s_reuse_lock);
+    return base;
+}
+
+/* returns true when the block was cached instead of freed */
+static bool reuse_put(uint8_t *base, size_t total) {
+    uint8_t *evicted = NULL;
+    bool kept = false;
+    pthread_mutex_lock(&s_reuse_lock);
+    if (s_reuse_on) {
+        unsigned slot = s_reuse_next++ % REUSE_SLOTS;
+        evicted = s_reuse[slot].base;
+        s_reuse[slot].base = base;
+        s_reuse[slot].total = total;
+        kept = true;
+    }
+    pthread_mutex_unlock(&s_reuse_lock);
+    if (evicted) {
+        free(evicted);
+    }
+    return kept;
+}
+
 static void *guard_acquire_impl(size_t size, uint64_t magic, bool count) {
     size_t total = HDR_SIZE + size + RZ;
     if (total < size) {
         fprintf(stderr, "mon: guard allocation size overflow (%zu)\n", size);
         abort();
     }
-    uint8_t *base = malloc(total);
+    uint8_t *base = count ? reuse_take(total) : NULL;
+    if (!base) {
+        base = malloc(total);
+    }
     if (!base) {
         fprintf(stderr, "mon: guard allocator out of memory (request %zu)\n", size);
         _exit(2); /* harness failure, not a finding */
@@ -770,7 +833,9 @@ static void guard_release_impl(void *ptr, uint64_t magic, bool count) {
     size_t total = HDR_SIZE + h->size + RZ;
     h->magic = 0xdeadbeefdeadbeefULL;
     memset((uint8_t *)h + 8, 0xDD, total - 8);
-    free(h);
+    if (!count || !reuse_put((uint8_t *)h, total)) {
+        free(h);
+    }
 }
 
 static void *s_guard_acquire(struct aws_allocator *a, size_t size) {
